@@ -4,10 +4,12 @@ from decimal import Decimal
 from fractions import Fraction as F
 import common as C
 import impl, reader, genprog, oracles as O
+from props import _filter as FL
 from octoprint_excluderegion.GcodeParser import formatNumber, GcodeParser
 
 PID = 'C07'
-TRUSTED = ['Tier H coq/Model/Format.v (layout of the digits of a float) tied to GcodeParser.formatNumber and to the commands actually emitted, '
+TRUSTED = ['Tier H filter model (coq/Model/Filter.v: deferral / merging) tied to /repo by the `filter` vm_compute correspondence',
+           'Tier H coq/Model/Format.v (layout of the digits of a float) tied to GcodeParser.formatNumber and to the commands actually emitted, '
            'character for character, on every run',
            'modelled, not verified: CPython\'s shortest-digit repr (the digits and decimal exponent of each float are inputs of the model); '
            'inf / nan (need inputs with more than 308 digits) are outside the model']
@@ -88,11 +90,15 @@ def correspondence(ctx):
                 dis.append(dict(kind='model!=impl', stream='format', case=dict(value=repr(x), impl=formatNumber(x), digits=digits_of(x))))
             else:
                 dis.append(dict(kind='model!=impl', stream='format', case=dict(command=cmds[b][:300])))
-    return dict(evaluations=len(xs) + len(cmds), distinct_nontrivial=len(set(xs)), shards=len(files),
+    # the merged-command theorem speaks about the filter model: tie it to the code by the filter stream (deferred codes, flags)
+    fc = FL.correspondence(ctx, PID, dict(junk=True, at=False, addregions=False), 12, 300)
+    dis += fc['disagreements']
+    return dict(evaluations=len(xs) + len(cmds) + fc['evaluations'], distinct_nontrivial=len(set(xs)) + fc['distinct_nontrivial'], shards=len(files) + fc['shards'],
                 rule='floats reachable as tracked values: decimal literals, relative-move round-off sums, inch conversions, random magnitudes, '
                      'integers up to 1e18 and every decimal exponent from -324 to 308; the model\'s text is compared character for character with '
-                     'formatNumber and with buildCommand; distinct by value',
-                samples=[repr(x) + ' -> ' + formatNumber(x) for x in xs[:6]], disagreements=dis[:5])
+                     'formatNumber and with buildCommand; distinct by value.  Plus the `filter` stream (programs with deferred codes and flags): every '
+                     'generated command of the real handlers against the model',
+                samples=[repr(x) + ' -> ' + formatNumber(x) for x in xs[:6]], disagreements=dis[:5], filter_stream=dict(programs=fc['evaluations'], events=fc['events']))
 
 
 def generated(outs, line):
@@ -114,10 +120,17 @@ def oracle(ctx, budget=1, replay=None, hints=None):
     progs.append(P(['G28', 'G1 X5 Y5 Z0.3 F3000', 'G91'] + ['G1 Z0.1', 'G1 Z-0.1'] * 3 + ['G1 X10 Y10', 'G1 Z0.1', 'G1 Z-0.1', 'G1 X15 Y15']))
     progs.append(P(['G28', 'G20', 'G1 X0.2 Y0.2 F0.0001', 'G1 X0.6 Y0.6 E0.0000001', 'M204 S0.00001 P1e5', 'M204 T123456789012345678', 'G1 X2 Y2']))
     progs.append(P(['G28', 'G1 X5 Y5 E100000000000000000000 F1e-7', 'G1 E99999999999999999999', 'G1 X15 Y15', 'G1 X30 Y30 Z1e-7']))
+    progs.append(P(['G28', 'G1 X15 Y15 F3000', 'M204 S500', 'M204 S', 'M73 P5 R', 'M204 P1 S', 'G1 X50 Y50'], ext={'M204': 'merge', 'M73': 'merge'}))   # D24
     for _ in range(60 * budget):
         progs.append(genprog.Gen(ctx.rng).program())
     for p in progs:
         steps, exc = O.simulate(p)
+        # a merged deferred command carries a flag (letter without value) over when the program itself gave it as a flag
+        flags = {}
+        for e in p['events']:
+            c = reader.read(e[1]) if e[0] == 'cmd' else None
+            if c is not None and p['ext'].get(c.code) == 'merge':
+                flags.setdefault(c.code, set()).update(k for k, v in c.words if v is None)
         for k, st in enumerate(steps):
             if st.ev[0] != 'cmd' and st.ev[0] != 'at':
                 continue
@@ -130,7 +143,8 @@ def oracle(ctx, budget=1, replay=None, hints=None):
                 if any(o == e[1] for e in p['events'] if e[0] == 'cmd'):
                     continue            # a deferred command kept verbatim (first / last)
                 n += 1
-                ok, why = reader.well_formed(o)
+                co = reader.read(o)
+                ok, why = reader.well_formed(o, flags.get(co.code, ()) if co is not None else ())
                 if o.startswith(('G10', 'G11')):
                     ok = reader.read(o) is not None and not re.search(r'G1[01].*G1[01]', o)
                     why = 'malformed firmware retraction command'
